@@ -66,6 +66,15 @@ class Checker:
         e = expected.expr if isinstance(expected, Num) else sp.sympify(expected)
         v = terms.equal(f, e, seed=self.run.seed, points=self.points, constraints=constraints, assume=assume)
         st = OK if v.equal is True else BAD if v.equal is False else UNK
+        if st == BAD:
+            # a term built from operators the reference does not use (another algorithm, e.g. rfft/irfft instead of
+            # fft/ifft) cannot be compared by normal forms: inconclusive, never a violation
+            fo = {a.func.__name__ for a in f.atoms(sp.core.function.AppliedUndef)}
+            eo = {a.func.__name__ for a in e.atoms(sp.core.function.AppliedUndef)}
+            foreign = {x for x in fo - eo if x.startswith(("FFT_", "IFFT_", "Opq", "Call"))}
+            if foreign:
+                st = UNK
+                note = (note + "; " if note else "") + f"the extracted term uses operators outside the reference vocabulary: {sorted(foreign)}"
         self.how[v.how.split(" ")[0]] = self.how.get(v.how.split(" ")[0], 0) + 1
         self.run.ob(rule, where, construct, what, st, found=str(f), expected=str(e),
                     nontrivial=v.how not in ("syntactic",), witness=v.witness,
@@ -89,3 +98,23 @@ def obj_summary(o):
     if isinstance(o, ObjV):
         return f"{o.cls.name}(" + ", ".join(f"{k}={v}" for k, v in o.attrs.items() if k != "_data") + ")"
     return repr(o)
+
+
+def nonzero_shift_oracle(extra=None):
+    """Decides only the early-exit test of time_shift (`np.allclose(shift, 0)`): the scenarios shift by a non-zero amount.
+    Every other undecided test is left to if-conversion."""
+    import ast as _ast
+
+    def o(c, node, fr):
+        if fr is not None and fr.fi is not None and fr.fi.qualname == "time_shift" and node is not None:
+            test = getattr(node, "test", node)
+            try:
+                txt = _ast.unparse(test)
+            except Exception:
+                txt = ""
+            if txt.replace(" ", "") in ("np.allclose(shift,0)", "numpy.allclose(shift,0)", "np.allclose(shift,0.0)"):
+                return False
+        if extra is not None:
+            return extra(c, node, fr)
+        return None
+    return o
